@@ -10,27 +10,28 @@ sys.path.insert(0, os.path.join(vf.VERIF, "lib"))
 import c09chain
 
 META = {
-    "text": "Theorems (Coq, no axioms). Slot/membership level: every instant has exactly one owning producer index, slots partition time into "
-            "((k-1)*iv, k*iv] with owners rotating mod n, two valid signers for one timestamp are equal, non-members are never valid, "
-            "timestamps >= 2 intervals ahead are rejected; for all intervals, producer counts and timestamps. Chain-service level "
-            "(coq/Dpos/Accept.v mirrors addBlock/addBlockInternal/chainProcessor/resolveOrphan/orphan pool/reorg in the order the code "
-            "performs the checks): for EVERY sequence of arrivals (any order, duplicates, children before parents, forged twins) every "
-            "main-chain block has a verifying signature, was not future at one of its arrivals and its signer owns the slot of its "
-            "timestamp in the producer set in force after a vetted block (C09_accepted_blocks_legitimate, by induction over arrivals with "
-            "the orphan-pool invariant); stored side-branch blocks and parked orphans satisfy the signature and clock clauses. Partial: "
-            "the set is the one in force after the block's own parent only while no reorganisation failed in rollforward "
-            "(C09_connected_validated_against_parent_partial / _refuted, known finding F42). raftv2 enforces the signature clause only, sbp "
-            "none (theorems, property written for DPoS). All models are tied to /repo on every run: real slot package, real "
-            "DPoS.IsBlockValid/VerifySign/VerifyTimestamp, a real ChainService fed with real signed blocks behind an adapter running the "
-            "DPoS verification code (result, consensus call order, main chain, chain DB, orphan pool, errBlocks after every arrival), "
-            "real raftv2/sbp block factories; plus the property itself evaluated on the implementation's observations.",
-    "note": "Trusted: Coq kernel/vm_compute; correspondence harnesses and generators; ECDSA as an oracle (signature coverage of each header "
-            "field is checked on the implementation by mutation, and proved at the byte level in C19's codec model); no int64 overflow "
-            "(timestamps < 2^62); producer set non-empty. Chain level: package chain cannot import consensus/impl/dpos (cycle), so the "
-            "engine's consensus is an adapter with the bodies of DPoS.VerifyTimestamp (future test) / VerifySign / IsBlockValid over the "
-            "real slot, bp.Cluster and block.VerifySign; the producer set after Update(block) is scripted per block (elections: C08); "
-            "LIB part of VerifyTimestamp/NeedReorganization, own-produced blocks and errBlocks eviction are not modelled (C08/C05); "
-            "validation+execution of the body is one bit.",
+    "text": "23 theorems (Coq, no axioms). Slot level (8+2): one owning producer index per instant, slots ((k-1)iv, k*iv] rotating mod n, "
+            "two valid signers of a timestamp are equal, non-members never valid, >= 2 intervals ahead is future; signed digest covers every "
+            "header field but Sign (cites C19). Chain-service level (Dpos/Accept.v mirrors addBlock/addBlockInternal/chainProcessor/"
+            "resolveOrphan/orphan pool/reorg in the order the code checks), FULL for every arrival sequence (any order, duplicates, "
+            "children first, forged twins): a main-chain block has a verifying signature, was not future at one of its arrivals and its "
+            "signer owns its slot in the producer set in force after its own parent (induction over arrivals with the orphan-pool "
+            "invariant); stored side-branch blocks and parked orphans satisfy the signature and clock clauses; forged / always-future "
+            "blocks are never kept. PARTIAL: same-chain-same-producers while BPCOUNT is unchanged (C08's F23). REFUTED witnesses kept: "
+            "parent clause for the unrepaired reorg (flag f42 false; fixed in 05cfcb8b); raftv2 checks only the signature, sbp nothing "
+            "(property written for DPoS). Tie to /repo on every run: real slot package, real DPoS verification functions, a real "
+            "ChainService fed real signed blocks behind (A) an adapter with the DPoS bodies + scripted set changes and (B) the real DPoS "
+            "object (result, consensus call order, main chain, chain DB, orphan pool, errBlocks after every arrival, vm_compute compare), "
+            "real raftv2/sbp factories, g5's election family (real NewStatus/bp.Snapshots over forks, boundaries, restarts), and the "
+            "property itself as direct predicates on the observations.",
+    "note": "Trusted: Coq kernel/vm_compute (no axioms); harnesses and generators (checks/C09.py, lib/c09chain.py, lib/c08election.py); "
+            "ECDSA as an oracle bit, cross-checked against block.VerifySign on every block (coverage of each header field checked by "
+            "mutation, proved at byte level in C19); source flag f42 read from chain/reorg.go. Modelled, not verified: engine A's adapter "
+            "(package chain cannot import dpos) copies three DPoS method bodies over the real slot/bp.Cluster/types code; the producer "
+            "set is a function of the last block given to consensus.Update (scripted per block in A, fixed 7-producer set in B, real "
+            "elections only in the election family, not together with the chain service); body validation + execution is one bit; the LIB "
+            "part of VerifyTimestamp/NeedReorganization, own-produced blocks and errBlocks eviction (128) are outside (C08/C05). "
+            "Assumptions: timestamps in [0, 2^62) ns, producer set non-empty and <= 65535.",
     "technique": "Coq proof over Gallina slot + acceptance-pipeline models, vm_compute correspondence against real slot/dpos/chain/raftv2/sbp packages",
 }
 
@@ -304,7 +305,22 @@ def run(ctx):
     # ---- "current block producer": election snapshots across forks, boundaries and restarts
     # (g5's election engine: real dpos.NewStatus + bp.Cluster/Snapshots + system.GetRankers)
     import c08election
-    efind = c08election.run_election_family(ctx, include_f23=False)
+    t1 = time.time()
+    orig_build = ctx.go_test_binary
+
+    def cached_build(pkg, engine_files, out_name, overlay_extra=None, use_overlay=True, timeout=1500):
+        # g5's helper builds its engine with ctx.go_test_binary: route it through the binary cache
+        ctx.go_test_binary = orig_build
+        try:
+            return c09chain.go_test_binary_cached(ctx, pkg, engine_files, out_name, overlay_extra=overlay_extra, use_overlay=use_overlay)
+        finally:
+            ctx.go_test_binary = cached_build
+    ctx.go_test_binary = cached_build
+    try:
+        efind = c08election.run_election_family(ctx, include_f23=False)
+    finally:
+        ctx.go_test_binary = orig_build
+    T["election"] = round(time.time() - t1, 1)
     ctx.cov["election_family_findings"] = len(efind)
     for f in efind:
         pred_fail.append((f["key"], f["what"], f["replay"]))
